@@ -217,7 +217,7 @@ impl StringPool {
             self.strings.iter_mut().enumerate()
         {
             if *refcount == 0 {
-                debug_assert_eq!(st, "");
+                // An unused entry of a foreign file may still carry text.
                 *st = string;
                 *refcount = 1;
                 return StringRef((index + 1) as i32);
@@ -245,16 +245,15 @@ impl StringPool {
     /// Decrements the refcount of a string in the pool.
     pub fn decref(&mut self, string_ref: StringRef) {
         let index = string_ref.index();
+        // A file written by another tool (or an interrupted write) can hold
+        // a reference that is out of range or whose entry is already
+        // unused; like `get`, tolerate it instead of panicking.
         if index >= self.strings.len() {
-            panic!(
-                "decref: string_ref {} invalid, pool has only {} entries",
-                string_ref.number(),
-                self.strings.len()
-            );
+            return;
         }
         let (ref mut string, ref mut refcount) = self.strings[index];
         if *refcount < 1 {
-            panic!("decref: string refcount is already zero");
+            return;
         }
         self.is_modified = true;
         *refcount -= 1;
